@@ -88,24 +88,28 @@ def new_parser(cfg, process=None):
 
 
 def with_terminate(case):
-    """version-2 case with a thread-terminate record that names the FILTERED thread (logged by that thread or by
-    another one) somewhere in the stream: later records of the thread are still records of the thread"""
+    """version-2 case with bookkeeping records that NAME the filtered thread: a thread-terminate record (logged by that
+    thread or by another one) somewhere in the stream — later records of the thread are still records of the thread — and a
+    new-thread record, logged by the creating thread, that declares the filtered thread's process (the listing of the filtered
+    thread still shows the very lines the unfiltered listing shows for it); the filtered thread logs at least two records"""
     cfg, spec = case['config'], case['spec']
     k = case.get('terminate_at')
-    if case['version'] != 2 or k is None or cfg['tid'] is None:
+    if case['version'] != 2 or cfg['tid'] is None:
         return spec
     from .. import events as EV
     recs = list(spec['recs'])
-    pos = k % (len(recs) + 1)
-    by = TIDS[k % len(TIDS)] if k % 3 else cfg['tid']
-    data = b''.join(int(x).to_bytes(8, 'little') for x in (cfg['tid'], 0, 0, 0))
-    recs.insert(pos, kmodel.record(2 * k + 1, data, by, EV.by_name()['TRACE_DATA_THREAD_TERMINATE']))
-    if k % 2:
-        # ... and a new-thread record, logged by the creating thread, that declares the filtered thread's process (the
-        # listing of the filtered thread still shows the very lines the unfiltered listing shows for it)
-        decl = b''.join(int(x).to_bytes(8, 'little') for x in (cfg['tid'], 4000 + k, 0, 0))
-        creator = TIDS[(k + 1) % len(TIDS)] if TIDS[(k + 1) % len(TIDS)] != cfg['tid'] else 0x99
-        recs.insert(0, kmodel.record(2 * k + 3, decl, creator, EV.by_name()['TRACE_DATA_NEWTHREAD']))
+    seedk = (k or 0) + len(recs)
+    if sum(1 for r in recs if int.from_bytes(r[40:48], 'little') == cfg['tid']) < 2:
+        recs += [kmodel.record(900001 + 2 * i, bytes([i + 1]) * 32, cfg['tid'], (CLASSES[(seedk + i) % len(CLASSES)] << 24) | 0x10000 | (4 * i)) for i in range(2)]
+    if k is not None:
+        pos = k % (len(recs) + 1)
+        by = TIDS[k % len(TIDS)] if k % 3 else cfg['tid']
+        data = b''.join(int(x).to_bytes(8, 'little') for x in (cfg['tid'], 0, 0, 0))
+        recs.insert(pos, kmodel.record(2 * k + 1, data, by, EV.by_name()['TRACE_DATA_THREAD_TERMINATE']))
+    if seedk % 3:
+        decl = b''.join(int(x).to_bytes(8, 'little') for x in (cfg['tid'], 4000 + seedk, 0, 0))
+        creator = TIDS[(seedk + 1) % len(TIDS)] if TIDS[(seedk + 1) % len(TIDS)] != cfg['tid'] else 0x99
+        recs.insert(0, kmodel.record(2 * seedk + 3, decl, creator, EV.by_name()['TRACE_DATA_NEWTHREAD']))
     return dict(spec, recs=recs)
 
 
